@@ -85,11 +85,11 @@ func (e effect) key() string { return e.Path + "|" + e.What + "|" + e.Org.String
 
 type summary struct {
 	Effects      map[string]effect
-	Escapes      map[int]bool // parameter index whose pointer may be retained beyond the call
-	Fresh        map[int]bool // result index whose value is always an object allocated during the call
-	RetParams    map[int][]int // result index whose value is always fresh or (an object handed in as) one of these parameters
+	Escapes      map[int]bool          // parameter index whose pointer may be retained beyond the call
+	Fresh        map[int]bool          // result index whose value is always an object allocated during the call
+	RetParams    map[int][]int         // result index whose value is always fresh or (an object handed in as) one of these parameters
 	RetGlobals   map[int][]*ssa.Global // result index that may be (reachable from) one of these package-level variables
-	CallsUnknown bool         // may run code outside the analysed set through an interface or function value
+	CallsUnknown bool                  // may run code outside the analysed set through an interface or function value
 }
 
 // Effects is the whole-program (module + runewidth/uniseg + synthetic wrappers) effect analysis.
